@@ -1,7 +1,7 @@
 (* C03 — Expansion leaves only resolvable cycle cut-points; acyclic specs end $ref-free. *)
 From Coq Require Import List String Bool.
 From Spec Require Import Base.Json Base.Url Codec.Types Codec.Gen_Tables Codec.Codec Codec.CodecFacts Expand.Expand Expand.ExpandFacts
-  Expand.ExpandSim Expand.ExpandSimCheck Expand.ExpandCycle Expand.ExpandExample.
+  Expand.ExpandSim Expand.ExpandSimCheck Expand.ExpandCycle Expand.ExpandElem Expand.ExpandTermG Expand.ExpandChain Expand.ExpandSpecSim Expand.ExpandExample.
 Import ListNotations.
 
 (* a schema reference is kept exactly when its canonical form is already on the stack of references being expanded
@@ -126,3 +126,94 @@ Print Assumptions C03_example_acyclic.
 Example C03_example_acyclic_runs : exists s' j',
   exp gen_env ac_docs "/" (mkOpts false false false) ex_root_url ac_live 8 ex_s0 [] (Some ex_root_url) ex_root_url ac_start = Done (s', j').
 Proof. vm_compute. eexists. eexists. reflexivity. Qed.
+
+Local Open Scope string_scope.
+(* ---------- the whole of ExpandSpec (Expand/ExpandSpecSim.v) ---------- *)
+(* Every `$ref` that ExpandSpec leaves at a schema position - in a definition, below a shared parameter or response, below
+   the parameters of a path item, below the parameters and responses of an operation - is the rendering of a canonical
+   reference that lies on a cycle of the schema graph (or was on the stack its expansion started with: the
+   "#/definitions/<name>" entry, which is not a reference of the graph); parameters, responses and path items themselves
+   come out as the END of their chains, i.e. without `$ref`.  [spec_rel] walks the output section by section; [okv t t'] says
+   "if t is an object, t' satisfies out_ok". *)
+Theorem C03_expand_spec_keeps_refs_only_on_cycles : forall E docs cwd OP ctx_base rid nodes enodes bad0 ranks live,
+  (forall lu ld, live = Some (lu, ld) -> doc_at docs cwd lu = Some ld) ->
+  o_cont OP = false -> o_skip OP = false ->
+  check_nodes E docs cwd OP ctx_base rid nodes = true -> check_enodes E docs cwd enodes nodes = true ->
+  check_chains E docs cwd nodes enodes bad0 ranks = true -> check_pis enodes = true ->
+  forall d root_url m s s' out,
+  check_root ctx_base nodes enodes bad0 m = true ->
+  Inv2 E docs cwd rid (GN nodes) bad0 s -> Coh cwd (Some root_url) ctx_base ->
+  expand_spec E docs cwd OP ctx_base live d root_url (JObj m) s = Done (s', out) ->
+  spec_rel E docs cwd ctx_base (fun _ t t' => okv E docs cwd OP ctx_base rid (GN nodes) bad0 t t') m out.
+Proof.
+  intros E docs cwd OP ctx_base rid nodes enodes bad0 ranks live Hlive Hstrict Hskip Hck Hcke Hckc Hckp d root_url m s s' out Hroot Hs Hcoh H.
+  apply (spec_rel_mono E docs cwd (sound_schema E docs cwd OP ctx_base rid nodes bad0) _ (fun b t t' Hq => proj2 Hq)).
+  exact (proj2 (checked_spec_sim E docs cwd OP ctx_base rid nodes enodes bad0 ranks live Hlive Hstrict Hskip Hck Hcke Hckc Hckp d (S d) root_url m s s' out Hroot Hs Hcoh H)).
+Qed.
+Print Assumptions C03_expand_spec_keeps_refs_only_on_cycles.
+
+(* the ends of the chains carry no `$ref` *)
+Theorem C03_elements_come_out_without_ref : forall E docs cwd Q kind base m j',
+  por_rel E docs cwd Q kind base (JObj m) j' -> exists mo, j' = JObj mo /\ get_str "$ref" mo = "".
+Proof.
+  intros E docs cwd Q kind base m j' [b1 [m1 [mo [Hch [-> Hout]]]]]. exists mo. split; [reflexivity|].
+  assert (Hrm : forall l : list (string * json), assoc "$ref" (remove_key "$ref" l) = None).
+  { induction l as [|[k v] r IH]; cbn [remove_key]; [reflexivity|]. destruct (String.eqb "$ref" k) eqn:Ek; [exact IH|]. cbn [assoc]. rewrite Ek. exact IH. }
+  unfold por_out in Hout. unfold get_str.
+  destruct (assoc "schema" (remove_key "$ref" m1)) as [[| | | | |sm]|]; try (subst mo; rewrite Hrm; reflexivity).
+  destruct Hout as [v' [-> _]]. rewrite assoc_set_member_neq by discriminate. rewrite Hrm. reflexivity.
+Qed.
+Print Assumptions C03_elements_come_out_without_ref.
+
+(* A specification whose schema graph is ACYCLIC (decided by rank_check / canon_check) comes out with no `$ref` at any of
+   these positions: every schema of the output is ref_free (provided the initial stack entries are not references of the
+   graph, which a boolean test decides) *)
+Theorem C03_acyclic_spec_ends_ref_free : forall E docs cwd OP ctx_base rid nodes enodes bad0 ranks live,
+  (forall lu ld, live = Some (lu, ld) -> doc_at docs cwd lu = Some ld) ->
+  o_cont OP = false -> o_skip OP = false ->
+  check_nodes E docs cwd OP ctx_base rid nodes = true -> check_enodes E docs cwd enodes nodes = true ->
+  check_chains E docs cwd nodes enodes bad0 ranks = true -> check_pis enodes = true ->
+  rank_check E docs cwd nodes = true -> canon_check nodes = true ->
+  forallb (fun x => negb (mem_str x bad0)) (refs_of nodes) = true ->
+  forall d root_url m s s' out,
+  check_root ctx_base nodes enodes bad0 m = true ->
+  Inv2 E docs cwd rid (GN nodes) bad0 s -> Coh cwd (Some root_url) ctx_base ->
+  expand_spec E docs cwd OP ctx_base live d root_url (JObj m) s = Done (s', out) ->
+  spec_rel E docs cwd ctx_base (fun _ t t' => match t with JObj _ => ref_free t' | _ => True end) m out.
+Proof.
+  intros E docs cwd OP ctx_base rid nodes enodes bad0 ranks live Hlive Hstrict Hskip Hck Hcke Hckc Hckp Hrank Hcanon Hdisj d root_url m s s' out Hroot Hs Hcoh H.
+  apply (spec_rel_mono E docs cwd (fun _ t t' => okv E docs cwd OP ctx_base rid (GN nodes) bad0 t t')).
+  - intros b t t' Hok. destruct t; auto. cbn [okv] in Hok.
+    apply (acyclic_ref_free_from E docs cwd OP ctx_base rid (GN nodes) bad0 (checked_graph_acyclic E docs cwd OP ctx_base rid nodes Hck Hrank Hcanon)); [|exact Hok].
+    intros b0 j0 x [Hg [mm0 [-> [Hr Hn]]]] Hin.
+    assert (Hx : In x (refs_of nodes)) by (apply holder_ref_refs_of; exists b0, mm0; auto).
+    rewrite forallb_forall in Hdisj. pose proof (Hdisj x Hx) as Hd. apply negb_true_iff in Hd. rewrite (In_mem_str _ _ Hin) in Hd. discriminate.
+  - exact (C03_expand_spec_keeps_refs_only_on_cycles E docs cwd OP ctx_base rid nodes enodes bad0 ranks live Hlive Hstrict Hskip Hck Hcke Hckc Hckp d root_url m s s' out Hroot Hs Hcoh H).
+Qed.
+Print Assumptions C03_acyclic_spec_ends_ref_free.
+
+(* non-vacuity: the acyclic two-document specification of ExpandExample.v satisfies every hypothesis, ExpandSpec returns,
+   and its result is related to the input by the ref-free relation *)
+Example C03_acyclic_spec_example : forall abs,
+  exists s' out, expand_spec gen_env sa_docs "/" (mkOpts false false abs) sp_root_url sa_live 12 sp_root_url (JObj sa_members) ex_s0 = Done (s', out)
+    /\ spec_rel gen_env sa_docs "/" sp_root_url (fun _ t t' => match t with JObj _ => ref_free t' | _ => True end) sa_members out.
+Proof.
+  intros abs. set (OP := mkOpts false false abs).
+  assert (Hck : check_nodes gen_env sa_docs "/" OP sp_root_url "" sa_nodes = true) by (destruct abs; vm_compute; reflexivity).
+  assert (Hcke : check_enodes gen_env sa_docs "/" sa_enodes sa_nodes = true) by (vm_compute; reflexivity).
+  assert (Hckc : check_chains gen_env sa_docs "/" sa_nodes sa_enodes sa_bad0 sa_ranks = true) by (vm_compute; reflexivity).
+  assert (Hckp : check_pis sa_enodes = true) by (vm_compute; reflexivity).
+  assert (Hrank : rank_check gen_env sa_docs "/" sa_nodes = true) by (vm_compute; reflexivity).
+  assert (Hcanon : canon_check sa_nodes = true) by (vm_compute; reflexivity).
+  assert (Hdisj : forallb (fun x => negb (mem_str x sa_bad0)) (refs_of sa_nodes) = true) by (vm_compute; reflexivity).
+  assert (Hroot : check_root sp_root_url sa_nodes sa_enodes sa_bad0 sa_members = true) by (vm_compute; reflexivity).
+  assert (Hlive : forall lu ld, sa_live = Some (lu, ld) -> doc_at sa_docs "/" lu = Some ld) by (intros lu ld E; inversion E; subst; vm_compute; reflexivity).
+  assert (Hs : Inv2 gen_env sa_docs "/" "" (GN sa_nodes) sa_bad0 ex_s0).
+  { split; [split; [intros u d E; discriminate|reflexivity]|intros x Hx; destruct Hx]. }
+  assert (Hcoh : Coh "/" (Some sp_root_url) sp_root_url) by (intros ru E; inversion E; subst; reflexivity).
+  assert (Hrun : exists s' out, expand_spec gen_env sa_docs "/" OP sp_root_url sa_live 12 sp_root_url (JObj sa_members) ex_s0 = Done (s', out))
+    by (destruct abs; vm_compute; eexists; eexists; reflexivity).
+  destruct Hrun as [s' [out Hrun]]. exists s', out. split; [exact Hrun|].
+  exact (C03_acyclic_spec_ends_ref_free gen_env sa_docs "/" OP sp_root_url "" sa_nodes sa_enodes sa_bad0 sa_ranks sa_live
+           Hlive eq_refl eq_refl Hck Hcke Hckc Hckp Hrank Hcanon Hdisj 12 sp_root_url sa_members ex_s0 s' out Hroot Hs Hcoh Hrun).
+Qed.
